@@ -751,10 +751,7 @@ def model (kv : List (String × String)) : Option (Option String × String) := d
     let reqs ← scnReqs (getS kv "reqs")
     let defs := (splitList (getS kv "defs")).map str
     let m := match expand true (fun n => defs.contains n) reqs with
-      | .ok steps =>
-        -- (round 6) more than 5000 steps - repeat counts near `MaxScenarioRequests` - are rendered by their number
-        if steps.length > 5000 then s!"steps=#{steps.length} end=ok"
-        else "steps=" ++ String.intercalate "," (steps.map fun (n, s) => s!"{hexB n}:{s}") ++ " end=ok"
+      | .ok steps => "steps=" ++ String.intercalate "," (steps.map fun (n, s) => s!"{hexB n}:{s}") ++ " end=ok"
       | .err _ => "end=ctor-err"
       | .panic _ => "end=panic"
       | .fatal _ => "end=fatal"
